@@ -7,29 +7,29 @@ EXTENDS KeyStore, IOUtils
 Rec == ndJsonDeserialize(IOEnv.TRACE)
 
 VARIABLE l
-tvars == <<live, dead, kidmap, last, l>>
+tvars == <<live, dead, kidmap, bls, last, l>>
 
-TraceInit == /\ l = 1 /\ live = {} /\ dead = {} /\ kidmap = [d \in Digests |-> NoKid]
-             /\ last = [pre |-> J(live, dead, kidmap), op |-> [name |-> "init"], res |-> [ok |-> TRUE], post |-> J(live, dead, kidmap)]
+TraceInit == /\ l = 1 /\ live = {} /\ dead = {} /\ kidmap = [d \in Digests |-> NoKid] /\ bls = {}
+             /\ last = [pre |-> J(live, dead, kidmap, bls), op |-> [name |-> "init"], res |-> [ok |-> TRUE], post |-> J(live, dead, kidmap, bls)]
 
 TraceNext ==
   /\ l <= Len(Rec)
   /\ l' = l + 1
   /\ LET e == Rec[l] IN
      IF e.op.name = "reset"
-     THEN /\ live' = {} /\ dead' = {} /\ kidmap' = [d \in Digests |-> NoKid]
-          /\ last' = [pre |-> J({}, {}, kidmap'), op |-> e.op, res |-> [ok |-> TRUE], post |-> J({}, {}, kidmap')]
-     ELSE LET r == Apply(live, dead, kidmap, e.op)
+     THEN /\ live' = {} /\ dead' = {} /\ kidmap' = [d \in Digests |-> NoKid] /\ bls' = {}
+          /\ last' = [pre |-> J({}, {}, kidmap', {}), op |-> e.op, res |-> [ok |-> TRUE], post |-> J({}, {}, kidmap', {})]
+     ELSE LET r == Apply(live, dead, kidmap, bls, e.op)
               \* the contract says what a store may accept, not what it must: a store may refuse a generate / insert /
               \* sign the reference accepts, provided nothing changes (named action Refuse)
-              refuse == e.op.name \in {"generate", "insert", "sign"} /\ "ok" \in DOMAIN e.res /\ ~e.res.ok /\ e.post = J(live, dead, kidmap)
+              refuse == e.op.name \in {"generate", "insert", "sign", "generate_bbs"} /\ "ok" \in DOMAIN e.res /\ ~e.res.ok /\ e.post = J(live, dead, kidmap, bls)
           IN \/ /\ r.res = e.res
-                /\ J(r.live, r.dead, r.kidmap) = e.post
-                /\ live' = r.live /\ dead' = r.dead /\ kidmap' = r.kidmap
-                /\ last' = [pre |-> J(live, dead, kidmap), op |-> e.op, res |-> r.res, post |-> e.post]
+                /\ J(r.live, r.dead, r.kidmap, r.bls) = e.post
+                /\ live' = r.live /\ dead' = r.dead /\ kidmap' = r.kidmap /\ bls' = r.bls
+                /\ last' = [pre |-> J(live, dead, kidmap, bls), op |-> e.op, res |-> r.res, post |-> e.post]
              \/ /\ refuse
-                /\ UNCHANGED <<live, dead, kidmap>>
-                /\ last' = [pre |-> J(live, dead, kidmap), op |-> e.op, res |-> [ok |-> FALSE], post |-> e.post]
+                /\ UNCHANGED <<live, dead, kidmap, bls>>
+                /\ last' = [pre |-> J(live, dead, kidmap, bls), op |-> e.op, res |-> [ok |-> FALSE], post |-> e.post]
 
 TraceSpec == TraceInit /\ [][TraceNext]_tvars
 TraceStepProp == [][last'.op.name = "reset" \/ StepLaws]_tvars
